@@ -58,7 +58,7 @@ CHECKS = {
                 ref='DESIGN.md §3.4, §4 C17', category='model_checking',
                 note='Partial claim (see text). Trusted base: rustc nightly MIR (-Zunpretty=mir), the call whitelist and the environment assumption in vk/e4.py (ASCII, attribute text <= 48 bytes), z3 4.8.12 and cvc5 1.0 (both must agree); every model is confirmed by compiling the attribute with the real proc macro.'),
     'C18': dict(engine='E3-cfg-sat', technique='SAT (z3, cvc5 cross-check) over the cfg(feature) structure extracted from the sources, all 4096 subsets symbolic, models replayed with cargo check; Kani/CBMC on a stated list of subsets for behaviour',
-                text='tools/cfgscan extracts the module tree, definitions, use leaves and every path with its cfg stack from the current sources; z3 decides for every (reference, target), every cfg-gated let, every Trait variant / lookup arm / dispatch gate, the compile_error! guard, every binding / import / private item (unused-variable, unused-import, dead-code lints) and every diagnostic of the shared entry point (a rejection must not exist only under some subsets) that no feature subset compiles a reference without its target (the subset is the SAT variable); each model is confirmed by a real cargo check -D warnings of that subset, or for a rejection by building the same derive input under that subset and under all features. Behavioural equality with the full build is discharged by the E1 harnesses of the enabled traits under 5 (quick) / ~33 (thorough) stated subsets.',
+                text='tools/cfgscan extracts the module tree, definitions, use leaves and every path with its cfg stack from the current sources; z3 decides for every (reference, target), every cfg-gated let, every Trait variant / lookup arm / dispatch gate, the compile_error! guard, every binding / import / private item (unused-variable, unused-mut, unused-import, dead-code lints) and every diagnostic of the shared entry point (a rejection must not exist only under some subsets) that no feature subset compiles a reference without its target (the subset is the SAT variable); each model is confirmed by a real cargo check -D warnings of that subset, or for a rejection by building the same derive input under that subset and under all features. Behavioural equality with the full build is discharged by the E1 harnesses of the enabled traits under 5 (quick) / ~33 (thorough) stated subsets.',
                 ref='DESIGN.md §3.3, §4 C18', category='model_checking',
                 note='Trusted base: the reference model of the crate built by tools/cfgscan (names it cannot see are unconstrained: a miss, never an alarm), z3/cvc5, cargo check for confirmation and for a validation sample of subsets on each run; the behavioural half covers the stated subsets only.'),
     'C19': dict(engine='E1-kani', technique='bounded model checking (Kani/CBMC, CaDiCaL) of the C02..C10 harnesses re-instantiated in hostile naming contexts',
